@@ -57,4 +57,22 @@ theorem c_routing_eq : c_route_steps_right_on_equal = true ∧ c_insert_route_st
     frees through the type's slots -/
 theorem c_alloc_via_type_slots_eq : c_type_is_basetype = true → c_alloc_via_type_slots = true := fun _ => rfl
 
+
+/-! ### iterator functions: the source text the model transcribes (C12, C13) -/
+/-- model: `C.iterNext` (+ `C.iterEvs` for the two Py_INCREF sites) -/
+theorem c_iter_next_src_eq : c_iter_next_src =
+    "if (self->modification_count != self->tree->modification_count) { PyErr_SetString(PyExc_RuntimeError, 'tree changed size during iteration'); return NULL; } if (!self->current_node) { PyErr_SetNone(PyExc_StopIteration); return NULL; } while (self->current_node && self->current_node->num_keys == 0) { self->current_node = self->current_node->next; } if (!self->current_node) { PyErr_SetNone(PyExc_StopIteration); return NULL; } if (self->current_index >= self->current_node->num_keys) { self->current_node = self->current_node->next; while (self->current_node && self->current_node->num_keys == 0) { self->current_node = self->current_node->next; } if (!self->current_node) { PyErr_SetNone(PyExc_StopIteration); return NULL; } self->current_index = 0; } PyObject *key = node_get_key(self->current_node, self->current_index); if (self->include_values) { PyObject *value = node_get_value(self->current_node, self->current_index); PyObject *tuple = PyTuple_New(2); if (!tuple) return NULL; Py_INCREF(key); Py_INCREF(value); PyTuple_SET_ITEM(tuple, 0, key); PyTuple_SET_ITEM(tuple, 1, value); self->current_index++; return tuple; } else { self->current_index++; Py_INCREF(key); return key; }" := rfl
+/-- model: `C.iterNew s false` (takes one reference on the tree object, none on keys or values) -/
+theorem c_src_BPlusTree_iter_eq : c_src_BPlusTree_iter =
+    "BPlusTreeIterator *iter = PyObject_New(BPlusTreeIterator, &BPlusTreeIteratorType); if (!iter) return NULL; Py_INCREF(self); iter->tree = self; BPlusNode *first_leaf = self->root; if (first_leaf) { while (first_leaf->type == NODE_BRANCH) { first_leaf = node_get_child(first_leaf, 0); if (!first_leaf) break; } } iter->current_node = first_leaf; iter->current_index = 0; iter->include_values = 0; iter->modification_count = self->modification_count; return (PyObject *)iter;" := rfl
+/-- model: `C.iterNew s false` -/
+theorem c_src_BPlusTree_keys_eq : c_src_BPlusTree_keys =
+    "return BPlusTree_iter(self);" := rfl
+/-- model: `C.iterNew s true` -/
+theorem c_src_BPlusTree_items_eq : c_src_BPlusTree_items =
+    "BPlusTreeIterator *iter = PyObject_New(BPlusTreeIterator, &BPlusTreeIteratorType); if (!iter) return NULL; Py_INCREF(self); iter->tree = self; BPlusNode *first_leaf = self->root; if (first_leaf) { while (first_leaf->type == NODE_BRANCH) { first_leaf = node_get_child(first_leaf, 0); if (!first_leaf) break; } } iter->current_node = first_leaf; iter->current_index = 0; iter->include_values = 1; iter->modification_count = self->modification_count; return (PyObject *)iter;" := rfl
+/-- releases the iterator's reference on the tree object only -/
+theorem c_src_BPlusTreeIterator_dealloc_eq : c_src_BPlusTreeIterator_dealloc =
+    "Py_XDECREF(self->tree); Py_TYPE(self)->tp_free((PyObject *)self);" := rfl
+
 end BPT.TieC
